@@ -107,6 +107,23 @@ def build_msg(ev, uniq):
     return Msg(mt, flags, int(ser), f, "us" + "h" * nfds, (int(token), "payload-%s" % token) + tuple(range(nfds)))
 
 
+def rule_text(f, uniq):
+    """f = [eavesdrop, type, sender, destination] of an M event"""
+    def name(x):
+        k = int(x[1:])
+        return uniq.get(k, ":1.999999") if x[0] == "u" else wk_name(k)
+    parts = []
+    if f[1] != "x":
+        parts.append("type='%s'" % {"c": "method_call", "r": "method_return", "e": "error", "s": "signal"}[f[1]])
+    if f[2] != "x":
+        parts.append("sender='%s'" % name(f[2]))
+    if f[3] != "x":
+        parts.append("destination='%s'" % name(f[3]))
+    if f[0] == "1":
+        parts.append("eavesdrop='true'")
+    return ",".join(parts)
+
+
 def same_message(sent, got, sender_unique):
     """C05 'intact': everything but SENDER is what was sent"""
     if (sent.mtype, sent.flags, sent.serial, sent.sig, tuple(sent.body)) != (got.mtype, got.flags, got.serial, got.sig, tuple(got.body)):
@@ -149,6 +166,12 @@ def run_history(bus, events, pipeline=False):
             mine = []
             for m in msgs:
                 s = m.fields.get(F_SENDER)
+                # a connection holding an eavesdrop rule also sees traffic to and from the bus driver (the harness's own
+                # round trips, other clients' RequestName calls and the driver's answers to them): not unicast routing
+                if m.fields.get(F_DESTINATION) == BUS or m.serial >= HIGH and s != BUS:
+                    continue
+                if s == BUS and m.fields.get(F_DESTINATION) not in (None, c.unique):
+                    continue
                 if s == BUS:
                     if m.mtype == SIGNAL:
                         continue
@@ -157,7 +180,7 @@ def run_history(bus, events, pipeline=False):
                         en = m.fields.get(F_ERROR_NAME, "?")
                         mine.append("E.%s.%d" % (en[len(ERRP):] if en.startswith(ERRP) else en, rs))
                     elif rs < HIGH:
-                        mine.append("D.%d.%s" % (rs, m.body[0] if m.body else "?"))
+                        mine.append("D.%d.%s" % (rs, m.body[0] if m.body else "0"))
                 else:
                     notes["forwarded"] += 1
                     tok = m.body[0] if m.sig.startswith("u") and m.body else "?"
@@ -258,6 +281,14 @@ def run_history(bus, events, pipeline=False):
                 nominal += int(f[1])
                 bus.obs.barrier()
                 toks.append(collect(sort_within=True))
+            elif f[0] == "M":
+                k = int(f[1])
+                if k not in conns:
+                    toks.append("!")
+                    continue
+                conns[k].send(Msg(METHOD_CALL, 0, int(f[2]), {F_PATH: "/org/freedesktop/DBus", F_INTERFACE: BUS, F_MEMBER: "AddMatch",
+                                                              F_DESTINATION: BUS}, "s", (rule_text(f[3:], uniq),)))
+                toks.append(collect())
             elif f[0] in ("R", "L"):
                 k = int(f[1])
                 if k not in conns:
